@@ -70,7 +70,7 @@ pub fn plan(prop: &str) -> Option<Plan> {
         },
         "C13" => Plan {
             level: "exploration",
-            parts: vec![p("worldsim", "restricted", 60_000, 2_000_000)],
+            parts: vec![p("worldsim", "restricted", 60_000, 2_000_000), p("joinsim", "restricted", 3_000, 80_000)],
             assumptions: base,
         },
         "C10" => Plan {
@@ -82,6 +82,16 @@ pub fn plan(prop: &str) -> Option<Plan> {
             level: "fault_enumeration",
             parts: vec![p("worldsim", "faults", 12_000, 300_000)],
             assumptions: vec![A_SAMPLING, A_MODEL, "one destructor fault is armed at a time and disarms when it fires (a second panic while unwinding aborts the process and says nothing about the property); faults are addressed by value identity, never by destructor call order (hash-map drop order is per-process)"],
+        },
+        "C07" => Plan {
+            level: "exploration",
+            parts: vec![p("joinsim", "mixed", 6_000, 150_000), p("joinsim", "readonly", 1_500, 30_000)],
+            assumptions: vec![A_SAMPLING, "mode A's seeded split tree is a superset of the trees rayon can produce; mode B runs rayon's real bridge for an N-thread pool without steals", "visibility of worker writes after par_join returns is rayon's join guarantee, not specs code; checked here on the single running thread"],
+        },
+        "C11" => Plan {
+            level: "exploration",
+            parts: vec![p("dispatchsim", "default", 20_000, 600_000)],
+            assumptions: vec![A_SAMPLING, "shred's Stage::execute (rayon par_iter_mut over the groups of a stage) is replaced by baton tasks; the baton policies range from one group at a time to all groups interleaved at every step, which covers every pool size", "exactly-once and dependency order are statements about shred's planner (outside /repo); they are checked because they are cheap"],
         },
         _ => return None,
     })
@@ -103,6 +113,9 @@ pub fn selftest(runs: u64) -> i32 {
         ("worldsim", "restricted"),
         ("worldsim", "parallel"),
         ("worldsim", "faults"),
+        ("joinsim", "mixed"),
+        ("joinsim", "restricted"),
+        ("dispatchsim", "default"),
     ] {
         let part = p(engine, profile, runs, runs);
         let a = run_part("", &part, runs, DEFAULT_SEED, 16, Duration::from_secs(600), true);
